@@ -10,7 +10,9 @@ from ..ref import wire
 PROP = 'C14'
 AS_VALUES = (1, 23456, 65535, 65536, 2 ** 31, 2 ** 32 - 1)
 HOLDS = (0, 1, 3, 255, 256, 65535)
-IDS = (1, 0x0A000001, 0x7FFFFFFF, 0x80000000, 0xFFFFFFFF)
+IDS = (1, 0x0A000001, 0x7FFFFFFF, 0x80000000, 0xFFFFFFFF,
+       # boundaries of the IPv4 address classes / special ranges (RFC 6286: any non-zero 32-bit value is a BGP identifier)
+       0x7F000001, 0xA9FE0001, 0xBFFFFFFF, 0xC0000000, 0xDFFFFFFF, 0xE0000000, 0xE0000001, 0xEFFFFFFF, 0xF0000000, 0xFFFFFFFE)
 ADD_PATH = (None, 'ipv4_receive', 'ipv4_send', 'ipv4_both')
 AFIS = [(1, 1), (2, 1), (1, 128)]
 DIR = {1: 'receive', 2: 'send', 3: 'both'}
@@ -256,7 +258,8 @@ def task_ref(chunk):
 
 # ------------------------------------------------------------------ half 3: the OPEN the application is told about
 SESSION_CFGS = [{}, {'four_bytes_as': False}, {'four_bytes_as': False, 'route_refresh': False, 'cisco_route_refresh': False},
-                {'local_as': 4200000000}, {'local_as': 65536, 'four_bytes_as': False}, {'local_as': 65535}]
+                {'local_as': 4200000000}, {'local_as': 65536, 'four_bytes_as': False}, {'local_as': 65535},
+                {'add_path': 'ipv4_both'}, {'add_path': 'ipv4_receive'}, {'add_path': 'ipv4_send'}]
 
 
 def session_cases(tier):
